@@ -6,7 +6,8 @@
    Canaries: a root computed by flooring an inexact real root (one too small on perfect powers); an export that
    restarts the engine every RestartEvery rows. *)
 EXTENDS FldGrid, TLC, Json
-CONSTANTS VMax, KMax, Emit, FloorRoot, RestartEvery
+CONSTANTS VMax, KMax, Emit, FloorRoot, RestartEvery,
+          SkipFirstRestart      \* canary: the export does not restart the engine before the first row
 VARIABLES mode, v, n, hi, x, t, more, visited, prev, col
 vars == <<mode, v, n, hi, x, t, more, visited, prev, col>>
 TableShapes == { <<1499>>, <<39, 39>>, <<10, 10, 10>>, <<2, 3, 255>> }
@@ -19,8 +20,10 @@ Init == \/ /\ \/ (mode = "root" /\ v \in 1..VMax /\ n \in 1..4 /\ hi = <<>> /\ x
               \/ (mode = "count" /\ v = 1 /\ n = 3 /\ hi \in { <<2, 0, 1>>, <<0, 3, 0>>, <<1, 2, 3>> }      \* inactive variables: radix 1
                   /\ x = <<0, 0, 0>> /\ t = 0 /\ more = TRUE /\ visited = << <<0, 0, 0>> >>)
            /\ prev = 0 /\ col = <<>>
-        \/ (mode = "table" /\ v = 0 /\ hi \in TableShapes /\ n = Len(hi) /\ x = [j \in 1..Len(hi) |-> 0] /\ t = 0 /\ more = TRUE
-            /\ visited = <<>> /\ prev = RowValue([j \in 1..Len(hi) |-> 0], 0) /\ col = << RowValue([j \in 1..Len(hi) |-> 0], 0) >>)
+        \* v: the value the output holds from the engine's use BEFORE the export (0: none); the export restarts the engine first
+        \/ (mode = "table" /\ v \in {0, 2} /\ hi \in TableShapes /\ n = Len(hi) /\ x = [j \in 1..Len(hi) |-> 0] /\ t = 0 /\ more = TRUE
+            /\ visited = <<>>
+            /\ LET first == RowValue([j \in 1..Len(hi) |-> 0], IF SkipFirstRestart THEN v ELSE 0) IN prev = first /\ col = << first >>)
 Count == /\ mode = "count" /\ more
          /\ LET r == Increment(x, hi) IN
             /\ x' = r.x /\ more' = r.more /\ t' = t + 1
@@ -49,5 +52,5 @@ HoldsAcrossRows == (mode = "table" /\ more) =>
                       /\ col[t + 1] = IF Fires(x) # 0 THEN Fires(x) ELSE IF t = 0 THEN 0 ELSE col[t]
 EmitInv == Emit => /\ (mode = "root" => PrintT(ToJson([kind |-> "root", v |-> v, n |-> n, k |-> Root(v, n)])))
                    /\ ((mode = "count" /\ ~more) => PrintT(ToJson([kind |-> "count", hi |-> hi, visited |-> visited])))
-                   /\ ((mode = "table" /\ ~more) => PrintT(ToJson([kind |-> "table", hi |-> hi, col |-> col])))
+                   /\ ((mode = "table" /\ ~more) => PrintT(ToJson([kind |-> "table", hi |-> hi, stale |-> v, col |-> col])))
 =============================================================================
